@@ -5,7 +5,7 @@
    shapes.  No header of a generated program is dropped by the `new` / `record` rule. *)
 From Verif Require Import Base Regex Token TokEngine Headers Blocks Spec HeaderSpec LexShapes Grammar GrammarAll.
 From Verif Require Import GrammarProofsParen GrammarProofsBrace GrammarProofsHeaders GrammarAllProofsTok.
-From Verif Require Import GrammarAllProofsSel GrammarAllProofsCand.
+From Verif Require Import GrammarAllProofsSel GrammarAllProofsCand GrammarAllProofsCb.
 From Coq Require Import Sorted Permutation.
 Open Scope nat_scope.
 
@@ -29,6 +29,14 @@ Inductive citems (Pc Ph : list token -> Prop) (l : language) : nat -> list token
     inner post -> is_symbol semi semicolon = true ->
     citems Pc Ph l (off + length pre + 1 + length flat + 1 + length post + 1) r ds ->
     citems Pc Ph l off (pre ++ o :: flat ++ c :: post ++ semi :: r) ds
+| ci_cb off a tail o body c post semi r ds1 ds2 :
+    is_jsts l = true -> a <> [] -> open_prefix a (length post) ->
+    (is_lparen (last a o) = true \/ is_symbol (last a o) s_comma = true) ->
+    cb_tail tail -> is_lbrace o = true -> is_rbrace c = true ->
+    forallb is_rparen post = true -> is_symbol semi semicolon = true ->
+    citems Pc Ph l (off + length a + length tail + 1) body ds1 ->
+    citems Pc Ph l (off + length a + length tail + 1 + length body + 1 + length post + 1) r ds2 ->
+    citems Pc Ph l off (a ++ tail ++ o :: body ++ c :: post ++ semi :: r) (ds1 ++ ds2)
 | ci_func off pre hd nm_off hend_off o body c r ds1 ds2 :
     forallb (prefix_word l) pre = true -> fhead l hd nm_off hend_off -> Ph hd ->
     is_lbrace o = true -> is_rbrace c = true ->
@@ -44,12 +52,60 @@ Definition any_tokens : list token -> Prop := fun _ => True.
 
 (* the grammar of GrammarAll.v is the instance "no `throws` keyword in a condition" *)
 Lemma items_of_citems l off ts ds : items_of l off ts ds -> citems no_throws_kw any_tokens l off ts ds.
-Proof. induction 1; [apply ci_nil | apply ci_stmt | apply ci_ctrl | apply ci_init | apply ci_func]; try assumption; exact I. Qed.
+Proof. induction 1; [apply ci_nil | apply ci_stmt | apply ci_ctrl | apply ci_init | apply ci_cb | apply ci_func]; try assumption; exact I. Qed.
 
 Lemma citems_weaken (Pc Ph Pc' Ph' : list token -> Prop) l off ts ds :
   (forall cond, Pc cond -> Pc' cond) -> (forall hd, Ph hd -> Ph' hd) ->
   citems Pc Ph l off ts ds -> citems Pc' Ph' l off ts ds.
-Proof. intros HP HQ. induction 1; [apply ci_nil | apply ci_stmt | apply ci_ctrl | apply ci_init | apply ci_func]; auto. Qed.
+Proof. intros HP HQ. induction 1; [apply ci_nil | apply ci_stmt | apply ci_ctrl | apply ci_init | apply ci_cb | apply ci_func]; auto. Qed.
+
+(* every program is consumed by the group run at depth >= 1 (its parentheses are balanced) *)
+Lemma pgain_stmt s : simple_stmt s -> pgain s 0.
+Proof.
+  intros (body & semi & -> & Hb & Hs). apply pgain_snoc; [apply pgain_inner; exact Hb | apply semi_noparen; exact Hs].
+Qed.
+
+Lemma pgain_prefix l pre : forallb (prefix_word l) pre = true -> pgain pre 0.
+Proof.
+  intros H. apply pgain_plains. apply forallb_forall. intros t Ht. rewrite forallb_forall in H.
+  apply prefix_tok_plain, (prefix_word_tok l), H, Ht.
+Qed.
+
+Theorem citems_pgain Pc Ph l off ts ds : citems Pc Ph l off ts ds -> pgain ts 0.
+Proof.
+  induction 1 as [off|off s r ds Hs Hr IH
+                 |off kw words cond o body c r ds1 ds2 Hkw Hwords Hcond HPc Ho Hc Hb IHb Hr IHr
+                 |off pre o flat c post semi r ds Hpre Ho Hflat Hc Hpost Hsemi Hr IH
+                 |off a tail o body c post semi r ds1 ds2 Hjs Hane Hop Hlast Htail Ho Hc Hpost Hsemi Hb IHb Hr IHr
+                 |off pre hd nm_off hend_off o body c r ds1 ds2 Hpre Hhd HPh Ho Hc Hb IHb Hflat Hr IHr].
+  - apply pgain_nil.
+  - apply pgain_app0; [apply pgain_stmt; exact Hs | exact IH].
+  - apply pgain_tok; [apply keyword_noparen; exact Hkw|].
+    apply pgain_app0; [apply pgain_words; exact Hwords|].
+    apply pgain_app0; [destruct Hcond as [->|[Hg _]]; [apply pgain_nil | apply pgain_groups; exact Hg]|].
+    apply pgain_tok; [apply lbrace_noparen; exact Ho|].
+    apply pgain_app0; [exact IHb|]. apply pgain_tok; [apply rbrace_noparen; exact Hc | exact IHr].
+  - apply pgain_app0; [apply pgain_plains; exact Hpre|].
+    apply pgain_tok; [apply lbrace_noparen; exact Ho|].
+    apply pgain_app0; [apply pgain_plains; exact Hflat|].
+    apply pgain_tok; [apply rbrace_noparen; exact Hc|].
+    apply pgain_app0; [apply pgain_inner; exact Hpost|].
+    apply pgain_tok; [apply semi_noparen; exact Hsemi | exact IH].
+  - assert (HM : pgain (tail ++ o :: body ++ [c]) 0).
+    { apply pgain_app0; [apply pgain_cb_tail; exact Htail|]. apply pgain_tok; [apply lbrace_noparen; exact Ho|].
+      apply pgain_snoc; [exact IHb | apply rbrace_noparen; exact Hc]. }
+    apply pgain_of_eq. intros dd rest Hd.
+    replace ((a ++ tail ++ o :: body ++ c :: post ++ semi :: r) ++ rest)
+      with (a ++ (tail ++ o :: body ++ [c]) ++ post ++ semi :: (r ++ rest)) by (norm_app; reflexivity).
+    rewrite (pgain_open_prefix a _ Hop) by exact Hd. rewrite HM by lia. cbn [Z.of_nat]. rewrite Z.add_0_r.
+    rewrite groups_len_closers by (assumption || lia).
+    destruct (semi_noparen semi Hsemi) as [S1 S2]. rewrite groups_len_inside_plain by assumption.
+    rewrite IHr by exact Hd. cbn [Z.of_nat]. rewrite Z.add_0_r. norm_len. lia.
+  - apply pgain_app0; [apply (pgain_prefix l); exact Hpre|].
+    apply pgain_app0; [eapply fhead_pgain; exact Hhd|].
+    apply pgain_tok; [apply lbrace_noparen; exact Ho|].
+    apply pgain_app0; [exact IHb|]. apply pgain_tok; [apply rbrace_noparen; exact Hc | exact IHr].
+Qed.
 
 (* ---------- what the item theorem needs of a selection ---------- *)
 Record oksel (Pc : list token -> Prop) (l : language) (c : cand_fn) (f : follow_fn) : Prop := mkOkSel
@@ -62,17 +118,23 @@ Record oksel (Pc : list token -> Prop) (l : language) (c : cand_fn) (f : follow_
              is_lbrace o = true -> no_acc c f (kw :: words ++ cond ++ [o]) B;
     o_init : forall pre o flat cl B, forallb plain pre = true -> is_lbrace o = true -> forallb plain flat = true ->
              is_rbrace cl = true -> no_acc c f (pre ++ o :: flat ++ [cl]) B;
+    o_cb : forall a tail o body cl post semi R, is_jsts l = true -> a <> [] -> open_prefix a (length post) ->
+           (is_lparen (last a o) = true \/ is_symbol (last a o) s_comma = true) ->
+           cb_tail tail -> is_lbrace o = true -> is_rbrace cl = true ->
+           forallb is_rparen post = true -> is_symbol semi semicolon = true -> pgain body 0 ->
+           no_acc c f (a ++ tail ++ [o]) (body ++ cl :: post ++ semi :: R);
     o_prefix : forall pre B, forallb (prefix_word l) pre = true -> hd_ok word B -> no_acc c f pre B }.
 
-Lemma good_oksel Pc l c f : good l c f -> oksel Pc l c f.
+Lemma good_oksel Pc l c f : good l c f -> (forall w, fsuf w -> acc c f w 0 = None) -> oksel Pc l c f.
 Proof.
-  intros G. constructor.
+  intros G Hfs. constructor.
   - apply (g_c _ _ _ G).
   - apply (g_f _ _ _ G).
   - apply (stmt_no_acc l c f G).
   - apply (symbol_no_acc l c f G).
   - intros kw words cond o B Hkw Hwords Hcond _ Ho. apply (ctrl_front_no_acc l c f G); assumption.
   - apply (init_front_no_acc l c f G).
+  - intros a tail o body cl post semi R _. apply (cb_front_no_acc l c f G Hfs).
   - apply (prefix_no_acc l c f G).
 Qed.
 
@@ -132,6 +194,41 @@ Section OneSelection.
     exact Hr.
   Qed.
 
+  Lemma symbols_no_acc A B : Forall (fun t => exists s, is_symbol t s = true) A -> no_acc c f A B.
+  Proof.
+    intros H. revert B. induction H as [|t A [s0 Ht] _ IH]; intros B; [apply no_acc_nil|].
+    change (t :: A) with ([t] ++ A). apply (no_acc_app c f Hc Hf); [apply (o_symbol _ _ _ _ G t s0); exact Ht | apply IH].
+  Qed.
+
+  Lemma seg_cb off a tail o body cl post semi r B hb hr :
+    is_jsts l = true -> a <> [] -> open_prefix a (length post) ->
+    (is_lparen (last a o) = true \/ is_symbol (last a o) s_comma = true) ->
+    cb_tail tail -> is_lbrace o = true -> is_rbrace cl = true ->
+    forallb is_rparen post = true -> is_symbol semi semicolon = true -> pgain body 0 ->
+    Seg c f (off + length a + length tail + 1) body (((cl :: post ++ [semi]) ++ r) ++ B) hb ->
+    Seg c f (off + length a + length tail + 1 + length body + 1 + length post + 1) r B hr ->
+    Seg c f off (a ++ tail ++ o :: body ++ cl :: post ++ semi :: r) B (hb ++ hr).
+  Proof.
+    intros Hjs Hane Hop Hlast Htail Ho Hcl Hpost Hsemi Hbody Hb Hr.
+    replace (a ++ tail ++ o :: body ++ cl :: post ++ semi :: r)
+      with ((a ++ tail ++ [o]) ++ body ++ (cl :: post ++ [semi]) ++ r) by (norm_app; reflexivity).
+    change (hb ++ hr) with ([] ++ hb ++ [] ++ hr).
+    apply Seg_app.
+    { apply (Seg_none c f Hc Hf).
+      replace ((body ++ (cl :: post ++ [semi]) ++ r) ++ B) with (body ++ cl :: post ++ semi :: (r ++ B)) by (norm_app; reflexivity).
+      apply (o_cb _ _ _ _ G); assumption. }
+    replace (off + length (a ++ tail ++ [o])) with (off + length a + length tail + 1) by (norm_len; lia).
+    apply Seg_app; [exact Hb|].
+    apply Seg_app.
+    { apply (Seg_none c f Hc Hf). apply symbols_no_acc.
+      constructor; [exists rbrace; exact Hcl|]. apply Forall_app. split.
+      - apply Forall_forall. intros t Ht. rewrite forallb_forall in Hpost. exists rparen. apply Hpost, Ht.
+      - constructor; [exists semicolon; exact Hsemi | constructor]. }
+    replace (off + length a + length tail + 1 + length body + length (cl :: post ++ [semi]))
+      with (off + length a + length tail + 1 + length body + 1 + length post + 1) by (norm_len; lia).
+    exact Hr.
+  Qed.
+
   Lemma seg_func off pre hd o body cl r B hh hb hr :
     forallb (prefix_word l) pre = true -> (exists x hd', hd = x :: hd' /\ word x = true) ->
     is_lbrace o = true -> is_rbrace cl = true ->
@@ -179,6 +276,7 @@ Section TwoSelections.
     induction 1 as [off|off s r ds Hs Hr IH
                    |off kw words cond o body c r ds1 ds2 Hkw Hwords Hcond HPc Ho Hc Hb IHb Hr IHr
                    |off pre o flat c post semi r ds Hpre Ho Hflat Hc Hpost Hsemi Hr IH
+                   |off a tail o body c post semi r ds1 ds2 Hjs Hane Hop Hlast Htail Ho Hc Hpost Hsemi Hb IHb Hr IHr
                    |off pre hd nm_off hend_off o body c r ds1 ds2 Hpre Hhd HPh Ho Hc Hb IHb Hflat Hr IHr]; intros B.
     - exists [], []. split; [apply Seg_nil|]. split; [apply Seg_nil | constructor].
     - destruct (IH B) as (h1 & h2 & S1 & S2 & HP). exists h1, h2.
@@ -195,6 +293,13 @@ Section TwoSelections.
       split; [|split; [|exact HP]].
       + apply (seg_init Pc l c1 f1 G1); assumption.
       + apply (seg_init Pc l c2 f2 G2); assumption.
+    - destruct (IHb (((c :: post ++ [semi]) ++ r) ++ B)) as (b1 & b2 & Sb1 & Sb2 & HPb).
+      destruct (IHr B) as (r1 & r2 & Sr1 & Sr2 & HPr).
+      pose proof (citems_pgain _ _ _ _ _ _ Hb) as Hpg.
+      exists (b1 ++ r1), (b2 ++ r2). split; [|split].
+      + apply (seg_cb Pc l c1 f1 G1); assumption.
+      + apply (seg_cb Pc l c2 f2 G2); assumption.
+      + rewrite map_app. eapply Permutation_trans; [apply perm_mix|]. apply Permutation_app; assumption.
     - destruct (IHb (([c] ++ r) ++ B)) as (b1 & b2 & Sb1 & Sb2 & HPb).
       destruct (IHr B) as (r1 & r2 & Sr1 & Sr2 & HPr).
       pose proof (fhead_first _ _ _ _ Hhd) as Hfirst.
@@ -394,6 +499,7 @@ Proof.
   induction 1 as [off|off s r ds Hs Hr IH
                  |off kw words cond o body c r ds1 ds2 Hkw Hwords Hcond Hnt Ho Hc Hb IHb Hr IHr
                  |off pre o flat c post semi r ds Hpre Ho Hflat Hc Hpost Hsemi Hr IH
+                 |off a tail o body c post semi r ds1 ds2 Hjs Hane Hop Hlast Htail Ho Hc Hpost Hsemi Hb IHb Hr IHr
                  |off pre hd nm_off hend_off o body c r ds1 ds2 Hpre Hhd HPh Ho Hc Hb IHb Hflat Hr IHr]; intros P B HP HL.
   - constructor.
   - replace (P ++ (s ++ r) ++ B) with ((P ++ s) ++ r ++ B) by (norm_app; reflexivity).
@@ -416,6 +522,18 @@ Proof.
     replace (P ++ pre ++ o :: flat ++ c :: post ++ [semi]) with ((P ++ pre ++ o :: flat ++ c :: post) ++ [semi])
       by (norm_app; reflexivity).
     apply last_ok_snoc. eapply symbol_no_drop; exact Hsemi.
+  - apply Forall_app. split.
+    + replace (P ++ (a ++ tail ++ o :: body ++ c :: post ++ semi :: r) ++ B)
+        with ((P ++ a ++ tail ++ [o]) ++ body ++ (c :: post ++ semi :: r ++ B)) by (norm_app; reflexivity).
+      apply IHb; [norm_len; lia|].
+      replace (P ++ a ++ tail ++ [o]) with ((P ++ a ++ tail) ++ [o]) by (norm_app; reflexivity).
+      apply last_ok_snoc. eapply symbol_no_drop; exact Ho.
+    + replace (P ++ (a ++ tail ++ o :: body ++ c :: post ++ semi :: r) ++ B)
+        with ((P ++ a ++ tail ++ o :: body ++ c :: post ++ [semi]) ++ r ++ B) by (norm_app; reflexivity).
+      apply IHr; [norm_len; lia|].
+      replace (P ++ a ++ tail ++ o :: body ++ c :: post ++ [semi]) with ((P ++ a ++ tail ++ o :: body ++ c :: post) ++ [semi])
+        by (norm_app; reflexivity).
+      apply last_ok_snoc. eapply symbol_no_drop; exact Hsemi.
   - constructor; [|apply Forall_app; split].
     + unfold header_of. cbn [fd_name fd_start fd_hend].
       replace (P ++ (pre ++ hd ++ o :: body ++ c :: r) ++ B)
